@@ -113,6 +113,7 @@ class CentralizedTaskingEngine(TaskingEngine):
                 )
             self._reward_executor.join()
 
+            self.calculateRewards()
             handleRelevantEvents(
                 self,
                 self._database,
@@ -122,7 +123,6 @@ class CentralizedTaskingEngine(TaskingEngine):
                 self.logger,
                 scope_instance_id=self.unique_id,
             )
-            self.calculateRewards()
             self.generateTasking()
 
             self.logger.debug("Executing tasking strategy...")
